@@ -28,15 +28,15 @@ def run(ctx):
     if "order law violated" in r["stdout"] or r["violated"]:
         ctx.violation("C19:model:order-law", "Options.tla: Fold is not order-independent for options on distinct settings:\n" + r["stdout"][-1200:], {"kind": "model"})
     scns = r["scn"]
-    if len(scns) != count + (count + 4) // 5 + 24:
-        raise ToolError("Options.tla produced %d of %d" % (len(scns), count + (count + 4) // 5 + 24))
+    if len(scns) != count + (count + 4) // 5 + 27:
+        raise ToolError("Options.tla produced %d of %d" % (len(scns), count + (count + 4) // 5 + 27))
     res = ctx.run_harness("c19", scns, timeout=3000)
     want = sum(4 if x.get("kind") == "invalid" else 5 for x in scns)
     ctx.sample({"edge_scenario": [x for x in scns if x.get("kind") == "edge"][5]})
     if len(res) != want:
         raise ToolError("c19 answered %d of %d; stderr:\n%s" % (len(res), want, ctx.last_stderr[-3000:]))
     byid = {(s["id"], s.get("kind", "")): s for s in scns}
-    byid.update({(s["id"], ""): s for s in scns if s.get("kind") == "edge"})
+    byid.update({(s["id"], ""): s for s in scns if s.get("kind") in ("edge", "edge-empty")})
     for rr in res:
         ctx.count()
         if rr.get("nontrivial"):
